@@ -15,7 +15,7 @@ from fractions import Fraction as F
 
 from pvmon import gen
 from pvmon.common import US, fields, inst, off_us, td_us, us_to_fields, wall_us
-from pvmon.oracle import cal
+from pvmon.oracle import cal, tzdb
 
 PLAN = {
     "quick": {"configs": ["ext1", "ext0", "ovf"], "nshards": 6, "nshards_ovf": 4, "timeout": 900},
@@ -297,6 +297,17 @@ def run(M, c):
             form = ("se", "sd", "de")[i % 3]
             dy, dmo, dd, dh, dmi, ds = r.randrange(3), r.randrange(14), r.randrange(40), r.randrange(30), r.randrange(70), r.randrange(70)
             tzopt = r.choice((None, None, "Europe/Paris", "America/Sao_Paulo", "Asia/Kathmandu"))
+            if i % 4 == 1:
+                # a naive endpoint in a DST zone, up to three days around one of its transitions, and a duration whose day
+                # part is only implied by its hours (PT36H): both backends must derive the other endpoint in the same way
+                tzopt = r.choice(("Europe/Paris", "America/Sao_Paulo", "America/New_York", "Australia/Lord_Howe"))
+                z = tzdb.Z.get(tzopt)
+                t, ob, oa, _ = z.trans[r.randrange(len(z.trans) // 2, len(z.trans))]
+                u1 = u2 = (t + ob + r.randrange(-3 * 86400, 3 * 86400)) * US
+                off1 = off2 = None
+                dy = dmo = 0
+                dd = r.choice((0, 0, 1))
+                dh = r.randrange(20, 80)
             _interval(M, {"k": "iv", "u1": u1, "u2": u2, "off1": off1, "off2": off2, "form": form, "d": [dy, dmo, dd, dh, dmi, ds], "tz": tzopt})
         return
 
